@@ -202,6 +202,7 @@ def run(ctx):
     paths_compared_by_component(ctx, "R13-k")
     only_a_missing_default_file_is_forgiven(ctx, "R13-l")
     relative_offset_is_consumed(ctx, "R13-m")
+    macro_bodies_keep_every_module(ctx, "R13-n")
 
     D = r.rule("R13-d", "ParseSess::default_submod_path retries in the declaring file's own directory only for "
                         "ModError::FileNotFound with a relative owner, every other error is passed on unchanged; the module map "
@@ -681,3 +682,42 @@ def relative_offset_is_consumed(ctx, rid):
                         "the component pushed onto the directory path is a copy of `ownership.relative`; the field is not emptied, "
                         "so nested inline modules apply the offset again", [c.loc()])
     r.floor(rid, n, 1, "pushes of the relative offset in push_inline_mod_directory")
+
+
+def macro_bodies_keep_every_module(ctx, rid):
+    """R13-n: the module items of a cfg_if! / cfg_match! body are kept whatever kind of module they are"""
+    import re
+    from common import unit_with_private_helpers
+    p, r = ctx.p, ctx.r
+    r.rule(rid, "parse::macros::cfg_if::parse_cfg_if_inner and cfg_match::parse_cfg_match_inner collect the `mod` items of the "
+                "macro body for the module resolver. They select by `ItemKind::Mod` alone: neither (with its closures and "
+                "private helpers) reads the discriminant of `ModKind`, `Inline` or the item list of a loaded module. An inline "
+                "module (`mod imp { mod unix; }`) has out-of-line children of its own; a collector that keeps only "
+                "`ModKind::Unloaded` never shows them to the resolver — their files are not formatted, and a missing one is "
+                "not reported")
+    n = 0
+    for nm in ("cfg_if::parse_cfg_if_inner", "cfg_match::parse_cfg_match_inner"):
+        f = p.fns.get("rustfmt_nightly::parse::macros::" + nm)
+        if f is None:
+            r.undecidable(rid, "parse::macros::%s not found" % nm)
+            continue
+        unit = unit_with_private_helpers(p, [f])
+        pushes = [c for g in unit for c in g.calls() if c.name.endswith("Vec::<T, A>::push") and "rustc_ast::Item" in " ".join(
+            g.locals[a[1][0]] for a in c.args if a[0] != "k")]
+        n += len(pushes)
+        looks = []
+        for g in unit:
+            for bb, i, st in g.stmts():
+                if st[0] == "=" and st[2][0] == "discr" and len(st[2]) > 2 and re.search(r"rustc_ast::(ModKind|Inline)$", str(st[2][2])):
+                    looks.append("%s:%d" % (g.file, st[3]))
+            for (a, v, fl, m, bb, ln) in g.field_accesses():
+                if a and a.endswith("rustc_ast::ModKind"):
+                    looks.append("%s:%d" % (g.file, ln))
+        ok = not looks and bool(pushes)
+        r.instance(rid, "%s keeps module items by ItemKind::Mod alone" % nm, "ok" if ok else "violation", "%s:%d" % (f.file, f.line),
+                   "%d push(es) of items, ModKind looked at: %s" % (len(pushes), sorted(set(looks))[:3]))
+        if looks:
+            r.violation(rid, "%s selects the modules of a macro body by their ModKind" % nm,
+                        "the collector distinguishes loaded (inline) from unloaded modules: `cfg_if! { if #[cfg(unix)] { mod imp "
+                        "{ mod unix; } } }` no longer leads the resolver to imp/unix.rs", sorted(set(looks))[:2])
+    r.floor(rid, n, 2, "pushes of items in the two collectors")
